@@ -3,6 +3,7 @@ import IpcModel.Cmsg
 import IpcModel.Wire
 import IpcModel.SideTable
 import IpcModel.Router
+import IpcModel.Interleave.Core
 /-! Line-protocol driver: one request per line on stdin, one canonical answer per line on stdout.
 Imports model files only (no Mathlib/Std), so it links as a native executable. -/
 open Frag
@@ -287,6 +288,45 @@ def cmdRouter (toks : List String) : String :=
       s!"{" ".intercalate per} panic={panic}"
   | _ => "bad-request"
 
+/-! ### interleaving model (C02 / C12): replay of an executed schedule -/
+def parseAct (s : String) : Option IM.Act :=
+  match s.toList with
+  | ['r'] => some .r
+  | 's' :: d => (String.ofList d).toNat?.map .s
+  | 'f' :: d => (String.ofList d).toNat?.map .f
+  | 'x' :: d => (String.ofList d).toNat?.map .x
+  | 'c' :: d => (String.ofList d).toNat?.map .crash
+  | _ => none
+
+/-- run the schedule; trailing receiver steps that are not enabled are the harness's end-marker reads and are ignored -/
+def imRun : IM.St → List IM.Act → Except String IM.St
+  | st, [] => .ok st
+  | st, a :: as =>
+    match IM.step st a with
+    | some st' => imRun st' as
+    | none => if (a :: as).all (· == .r) then .ok st else .error s!"stuck with {as.length + 1} steps left"
+
+def cmdIm (toks : List String) : String :=
+  match kvNat toks "sys", kv toks "lens", kv toks "threads", kv toks "sched" with
+  | some sys, some lensS, some thS, some schedS =>
+    let lens := natList lensS
+    let threads := (thS.splitOn ";").map natList
+    match (if schedS = "" then some [] else (schedS.splitOn ",").mapM parseAct) with
+    | none => "bad-schedule"
+    | some acts =>
+      let init : IM.St := { sys, msgs := lens.map (fun l => ⟨l, .todo, none, [], false, .none⟩), threads, mainq := [], cur := none, firstOrder := [] }
+      match imRun init acts with
+      | .error e => e
+      | .ok st =>
+        let del := st.firstOrder.filterMap fun m =>
+          match st.msgs[m]? with
+          | some x => (match x.rs with | .delivered n => some s!"{m}:{n}" | _ => none)
+          | none => none
+        let res := st.msgs.map fun x => match x.phase with | .ok => "ok" | .failed => "err" | _ => "-"
+        let bad := st.msgs.any fun x => x.rs == .corrupt
+        s!"{if bad then "corrupt" else "ok"} delivered={",".intercalate del} results={",".intercalate res}"
+  | _, _, _, _ => "bad-request"
+
 /-- all fault patterns (ENOBUFS or not) of length k, as numbers 0 .. 2^k-1 -/
 def patOf (k m : Nat) : List Fault := (List.range k).map fun i => if (m >>> i) % 2 = 1 then .enobufs else .none
 
@@ -316,6 +356,7 @@ def answer (line : String) : String :=
   | "searchfrag" :: rest => cmdSearchFrag rest
   | "side" :: rest => cmdSide rest
   | "router" :: rest => cmdRouter rest
+  | "im" :: rest => cmdIm rest
   | "noop" :: _ => "ok"
   | "enc" :: rest => cmdEnc rest
   | "rt" :: rest => cmdRt rest
